@@ -114,7 +114,9 @@ initialX, minX, maxX, tolerance, convergenceLimit float64, maxIterations int) (x
 			// minDelta = minTrialDelta
 		}
 
-		if hitConvergenceLimit == len(trialXs) {
+		// In the first iteration the trial points were compared with the caller's
+		// initial guess, not with a bracket end, so closeness says nothing yet
+		if iteration > 0 && hitConvergenceLimit == len(trialXs) {
 			return
 		}
 	}
